@@ -108,6 +108,8 @@ type Result struct {
 	DeterminismOK   bool               `json:"determinism_ok"`
 	ViolationCounts map[string]int     `json:"violation_counts"`
 	Extra           map[string]float64 `json:"extra,omitempty"`
+	// Conformance: divergences between emulated and real-block replays of this job's op sequences (harness errors)
+	Conformance []string `json:"conformance,omitempty"`
 }
 
 type explorer struct {
